@@ -380,7 +380,11 @@ class FakeSocket:
         if t.dead:
             if self.ep.rxp.rx_rst:
                 raise ConnectionResetError(errno.ECONNRESET, "Connection reset by peer")
-            raise BrokenPipeError(errno.EPIPE, "Broken pipe")
+            if self.ep.rxp.dead:
+                raise BrokenPipeError(errno.EPIPE, "Broken pipe")
+            # the peer has reset the connection but its RST has not reached us
+            # yet: the kernel still accepts the bytes (they go nowhere)
+            return len(data)
         if not len(data):
             return 0
         n = t.push(data)
